@@ -41,18 +41,18 @@ type v14Info struct {
 // v14Seen is what the handler observed and did.
 type v14Seen struct {
 	Method, Host, RequestURI, Path, RawQuery, URLHost, Proto string
-	Header                                                  http.Header
-	ContentLength                                           int64
-	TrailerBefore                                           http.Header
-	Trailer                                                 http.Header
-	BodyRes                                                 string
-	BodyLen                                                 int64
-	ReadErr                                                 string
-	WriteErr                                                string
-	SniffK                                                  int64
-	Wrote                                                   int64
-	Panic                                                   string
-	Returned                                                bool
+	Header                                                   http.Header
+	ContentLength                                            int64
+	TrailerBefore                                            http.Header
+	Trailer                                                  http.Header
+	BodyRes                                                  string
+	BodyLen                                                  int64
+	ReadErr                                                  string
+	WriteErr                                                 string
+	SniffK                                                   int64
+	Wrote                                                    int64
+	Panic                                                    string
+	Returned                                                 bool
 }
 
 // v14Got is what the client received.
@@ -215,6 +215,7 @@ func (s *v14Session) setup() bool {
 		return false
 	}
 	t2.MaxHeaderListSize = cf.CliMaxHeaderList
+	t2.StrictMaxConcurrentStreams = cf.StrictMax
 	if cf.ViaHTTP2Config {
 		t1.HTTP2.MaxDecoderHeaderTableSize = int(cf.CliDecTable)
 		t1.HTTP2.MaxEncoderHeaderTableSize = int(cf.CliEncTable)
@@ -363,6 +364,7 @@ type v14HState struct {
 	hdrDone  bool
 	wroteHdr bool
 	woff     int64
+	wtried   int64 // bytes handed to Write, accepted or not
 	wtotal   int64
 	wchunk   v14Chunker
 	wbuf     []byte
@@ -393,7 +395,7 @@ func (h *v14HState) readSome() {
 func (h *v14HState) flush() {
 	if !h.flushed {
 		h.flushed = true
-		h.seen.SniffK = h.woff
+		h.seen.SniffK = h.wtried
 	}
 	if err := h.w.(interface{ FlushError() error }).FlushError(); err != nil && h.seen.WriteErr == "" {
 		h.seen.WriteErr = "Flush: " + err.Error()
@@ -463,6 +465,7 @@ func (h *v14HState) writeSome() {
 		k, err = h.w.Write(p)
 	}
 	h.woff += int64(k)
+	h.wtried += n
 	h.s.step()
 	if err != nil || int64(k) != n {
 		h.werr = true
@@ -564,7 +567,7 @@ func (s *v14Session) serveHTTP(w http.ResponseWriter, r *http.Request) {
 		}
 	}
 	if !h.flushed {
-		seen.SniffK = h.woff
+		seen.SniffK = h.wtried
 	}
 	seen.Wrote = h.woff
 	seen.BodyRes, seen.BodyLen = h.rchk.result(), h.rchk.off
